@@ -305,7 +305,7 @@ def build_graph(case):
     return mk(blocks)
 
 
-TABLE_KINDS = ["name", "const", "local", "cell", "freeafter"]
+TABLE_KINDS = ["name", "const", "local", "cell", "freeafter", "freeadditional"]
 
 
 def table_cases(tier):
@@ -316,7 +316,7 @@ def table_cases(tier):
         ns += [65537]
     for kind in TABLE_KINDS:
         for n in ns:
-            if kind == "freeafter" and n > 300:
+            if kind in ("freeafter", "freeadditional") and n > 300:
                 continue
             for dup in (0, 1):
                 yield {"k": "table", "s": "T", "kind": kind, "n": n, "dup": dup}
@@ -358,6 +358,16 @@ def build_table(case):
         kw["freevars"] = ("fa", "fb")
         b0 = [I("LOAD_DEREF", Freevar("fb"), 1), I("JUMP_FORWARD", Jump(1, True), 1)] if dup else [I("LOAD_DEREF", Freevar("fb"), 1), I("POP_JUMP_IF_FALSE", Jump(1, False), 1)]
         b1 = [I("LOAD_CLOSURE", Cellvar("c%d" % i), 2) for i in range(n)] + [I("LOAD_DEREF", Freevar("fa"), 3)]
+        return mk([b0, b1 + list(RET)], **kw)
+    elif kind == "freeadditional":
+        # the cell variables are table entries no instruction references (as decoding
+        # leaves them when a closure over them was optimized away)
+        kw["type"] = Function(Args())
+        kw["name"] = "f"
+        kw["freevars"] = ("fa", "fb")
+        kw["_additional_args"] = tuple(Cellvar("c%d" % i) for i in range(n))
+        b0 = [I("LOAD_DEREF", Freevar("fb"), 1), I("JUMP_FORWARD", Jump(1, True), 1)] if dup else [I("LOAD_DEREF", Freevar("fb"), 1), I("POP_JUMP_IF_FALSE", Jump(1, False), 1)]
+        b1 = [I("LOAD_DEREF", Freevar("fa"), 3), I("STORE_DEREF", Freevar("fb"), 3)]
         return mk([b0, b1 + list(RET)], **kw)
     return mk([ins + list(RET)], **kw)
 
